@@ -41,6 +41,21 @@ def py_variant_programs(rnd: random.Random, n: int) -> List[Dict[str, Any]]:
     return out
 
 
+def _closed_fills(nodes, in_fill=False):
+    out = []
+    for n in nodes:
+        n = dict(n)
+        if in_fill and n["t"] in ("slot", "comp"):
+            continue
+        for k in ("a", "b"):
+            if isinstance(n.get(k), list):
+                n[k] = _closed_fills(n[k], in_fill or n["t"] == "fill" or (n["t"] == "comp" and n.get("body") == "impl"))
+        if n["t"] == "comp" and n["body"] == "fills" and not n["a"]:
+            n["body"] = "none"
+        out.append(n)
+    return out
+
+
 def _real_python(prog):
     """Render the page's single top-level component through Component.render(kwargs, slots)."""
     P.reset_library_state()
@@ -90,9 +105,25 @@ def body(chk: Check, *, mc_nodes: int, n_random: int, n_variants: int, deep: int
     chk.add("traces_validated_against_impl", len(progs) - st["zone"])
     chk.sample({"random_program": djc.brief(progs[0]), "expected": exp[progs[0]["id"]]["out"]}, limit=3)
     # ---- variants: dynamic component
-    sub = [dict(p, dyn=True) for p in progs[:n_variants]]
-    st = djc.compare_batch(chk, sub, exp, djc.real_variant(sub, dyn=True), "rand-dynamic")
+    # The dynamic component is a component instance of its own between caller and callee; outside the
+    # sub-language below (no loops / with / is_filled / dynamically named fills; django mode: closed fills) it is known not to be
+    # equivalent to the plain tag - see the pinned findings under findings/C01 - so the equivalence is
+    # explored inside it, and the pinned inputs are re-run every time.
+    gd = P.Gen(random.Random(chk.seed * 13 + 11), depth=3, width=3, collide=False, loops=False, withs=False, isf=False,
+               dyn_fill=False)
+    sub = []
+    for i in range(n_variants):
+        p = dict(gd.program(2 * 10 ** 6 + i, P.MODES[i % 2]), dyn=True)
+        if p["mode"] == "django":      # django mode: closed fills only (no slot / component tags inside fills)
+            p["page"] = _closed_fills(p["page"])
+            for c in p["comps"]:
+                c["tpl"] = _closed_fills(c["tpl"])
+        sub.append(p)
+    expd = djc.oracle(sub)
+    states += djc.oracle.last_states
+    st = djc.compare_batch(chk, sub, expd, djc.real_variant(sub, dyn=True), "rand-dynamic")
     chk.add("traces_validated_against_impl", len(sub) - st["zone"])
+    djc.run_pinned(chk, PID)
     # ---- variants: Component.render(kwargs, slots)
     pv = py_variant_programs(random.Random(chk.seed * 7 + 3), n_variants)
     expv = djc.oracle(pv)
